@@ -246,6 +246,54 @@ func c08Identities(p *run.Part) {
 	}
 }
 
+// c08ForeignIdentity: the fields of an entry are independent of each other for the codec. An entry signed by one
+// writer (key, clock id) may carry another writer's identity (the identity is not covered by the entry signature: a
+// delegated writer, a re-wrapped entry, a hand-built one); every ordered pair of the eight identities, both codecs.
+// Whatever is written is read back: key, clock id and every identity field.
+func c08ForeignIdentity(p *run.Part) {
+	for _, codec := range []string{"default", "linkkey"} {
+		io := defaultIO()
+		if codec == "linkkey" {
+			io = linkKeyIO("K1")
+		}
+		for a := range world.IDs {
+			for b := range world.IDs {
+				if a == b {
+					continue
+				}
+				st := store.New()
+				cc := c08Case{Codec: codec, What: fmt.Sprintf("foreign-identity:signed-by-w%d-identity-of-w%d", b, a)}
+				created, err := entry.CreateEntryWithIO(world.Ctx, st, world.IDs[b], &entry.Entry{LogID: "X", Payload: []byte("fi"),
+					Next: linksOf([]int{0}), Clock: entry.NewLamportClock(world.IDs[b].PublicKey, 3)}, nil, io)
+				p.Add(1, 1, 0, 1)
+				if err != nil {
+					p.Violate("identity", "C08:"+codec+":foreign-identity-create-failed", err.Error(), cc)
+					continue
+				}
+				written := created.Copy()
+				written.SetIdentity(world.IDs[a].Filtered())
+				h, err := entry.ToMultihashWithIO(world.Ctx, written, st, nil, io)
+				if err != nil {
+					p.Violate("identity", "C08:"+codec+":foreign-identity-write-failed", err.Error(), cc)
+					continue
+				}
+				written.SetHash(h)
+				d, err := entry.FromMultihashWithIO(world.Ctx, st, h, world.IDs[a].Provider, io)
+				if err != nil {
+					p.Violate("identity", "C08:"+codec+":foreign-identity-read-failed", err.Error(), cc)
+					continue
+				}
+				if f := fieldDiff(written, d); f != "" {
+					p.Violate("identity", "C08:"+codec+":field-differs:"+f, fmt.Sprintf("%s codec: an entry signed by writer %d and carrying writer %d's identity: field %s differs after write+read:\n  wrote %s\n  read  %s", codec, b, a, f, seqxDump(written), seqxDump(d)), cc)
+					continue
+				}
+				p.Add(0, 0, 1, 0)
+				p.Nontriv(cc.What + codec)
+			}
+		}
+	}
+}
+
 // c08RawLinks writes entries whose link lists are NOT normalised by entry creation (duplicates and every
 // order, as a block written by another implementation may carry) straight through the codec and reads them back.
 func c08RawLinks(p *run.Part) {
@@ -416,6 +464,7 @@ func c08Run(p *run.Part, tier string) {
 	}
 	c08Vectors(p)
 	c08Identities(p)
+	c08ForeignIdentity(p)
 	c08RawLinks(p)
 	p.SetExtra("grammar_entries", len(g))
 	p.SetExtra("cid_digest", mine)
@@ -688,6 +737,8 @@ func init() {
 			c08Vectors(p)
 		case strings.HasPrefix(c.What, "identity-variants"):
 			c08Identities(p)
+		case strings.HasPrefix(c.What, "foreign-identity"):
+			c08ForeignIdentity(p)
 		case strings.HasPrefix(c.What, "raw-links"):
 			c08RawLinks(p)
 		case c.What == "manifest" || c.What == "process" || c.What == "collision":
